@@ -3,7 +3,7 @@ open Eh
 /-! Line protocol for C04:
     `new`                         -> `ok`    (empty registry; behaviours of the default handlers 9001/9002/9003 preset)
     `reg <classId> <handlerId>`   -> `ok`    (`App.add_error_handler`, one class)
-    `behave <handlerId> <sets:STATUS:k | http:STATUS | status:STATUS | other>` -> `ok`  (k: 0 nothing, 1 text, 2 data, 3 media)
+    `behave <handlerId> <sets:STATUS:k | http:STATUS | status:STATUS | other | drafthttp:STATUS:tdm | draftstatus:STATUS:tdm>` -> `ok`  (k: 0 nothing, 1 text, 2 data, 3 media; tdm: letters of the fields assigned before the raise)
     `find <id,id,...>`            -> handler id | `none`   (`_find_error_handler` on `type(ex).__mro__[:-1]`)
     `handle <mro> <status of the raised HTTPError/HTTPStatus or 0> <preset fields t|d|m or ->` -> `status=N body=K` | `escape` -/
 structure St where
@@ -24,6 +24,12 @@ def parseBeh (s : String) : Option Beh :=
   | ["http", st] => some (.raisesHttp st.toNat!)
   | ["status", st] => some (.raisesStatus st.toNat!)
   | ["other"] => some .raisesOther
+  | ["drafthttp", st, k] =>
+    let k := k.toList
+    some (.draftRaisesHttp (if k.contains 't' then some 1 else none) (if k.contains 'd' then some 2 else none) (if k.contains 'm' then some 3 else none) st.toNat!)
+  | ["draftstatus", st, k] =>
+    let k := k.toList
+    some (.draftRaisesStatus (if k.contains 't' then some 1 else none) (if k.contains 'd' then some 2 else none) (if k.contains 'm' then some 3 else none) st.toNat!)
   | _ => none
 
 def ids (s : String) : List Nat := (s.splitOn ",").filterMap (·.toNat?)
